@@ -956,7 +956,9 @@ func (e *Enc) encAppend(fr *Frame, st *State, cc *ssa.CallCommon, args []*Val, r
 		inOld := "(and (<= " + no + " q) (< q (+ " + no + " " + ln + ")))"
 		inNew := "(and (<= (+ " + no + " " + ln + ") q) (< q (+ " + no + " " + nlen + ")))"
 		outside := "(or (< q " + no + ") (>= q (+ " + no + " " + nlen + ")))"
-		e.assert("(forall ((q Int)) (! (and (=> " + inOld + " (= (select " + na + " q) " + oldAt + ")) (=> " + inNew + " (= (select " + na + " q) " + src + ")) (=> (and " + fits + " " + outside + ") (= (select " + na + " q) (select (select " + h + " " + base + ") q)))) :pattern ((select " + na + " q))))")
+		// the content axiom of the new backing is only needed (and only instantiated) on paths that execute this append:
+		// on every other path (e.g. the exit of the loop whose body appends) it is vacuous
+		e.assert(implies(st.reach, "(forall ((q Int)) (! (and (=> "+inOld+" (= (select "+na+" q) "+oldAt+")) (=> "+inNew+" (= (select "+na+" q) "+src+")) (=> (and "+fits+" "+outside+") (= (select "+na+" q) (select (select "+h+" "+base+") q)))) :pattern ((select "+na+" q))))"))
 		e.writeTarget = nb
 		if !isStr {
 			// appending exactly one element (the common case): the new cell directly
